@@ -6,6 +6,7 @@ import (
 	"fmt"
 	"io/ioutil"
 	"math"
+	"runtime/debug"
 	"strconv"
 	"strings"
 
@@ -42,6 +43,11 @@ func init() {
 		var s string
 		var n float64
 		var b bool
+		if strings.HasPrefix(c.V.ID, "csafedeep:") {
+			// a process with a modest stack limit (32 MB instead of Go's 1 GB default): recursion proportional to the nesting
+			// depth of a value is what is being looked for, not the absolute limit
+			defer debug.SetMaxStack(debug.SetMaxStack(32 << 20))
+		}
 		if p := guard(func() { s = stick.CoerceString(v) }); p != "" {
 			obs["str_panic"] = p
 		} else {
